@@ -127,6 +127,7 @@ package document
 //@ func (*Document).setSectionProperties
 //@ props C08, C06
 //@ requires d != nil
+//@ ensures old(d.Body) != nil && old(elemsOK(d.Body.Elements)) ==> elemsOK(d.Body.Elements)
 //@ ensures sectPr == nil ==> unchangedHeap()
 //@ ensures sectPr != nil ==> d.Body != nil
 //@ ensures old(d.Body) != nil ==> d.Body == old(d.Body)
